@@ -99,6 +99,10 @@ fn zoo_models() -> Vec<(&'static str, GraphModel)> {
         ("deep-violation", g(vec![vec![Some(1), Some(2)], vec![Some(3)], vec![], vec![Some(4)], vec![]], vec![0], 0b11111, vec![(Expectation::Always, 0b01111), (Expectation::Sometimes, 0)])),
         ("one-branch-witness", g(vec![vec![Some(1), Some(2), None], vec![], vec![Some(3)], vec![]], vec![0], 0b1111, vec![(Expectation::Sometimes, 0b1000), at.clone()])),
         ("wide", g(vec![vec![Some(1), Some(2), Some(3)], vec![Some(4)], vec![Some(4)], vec![Some(4)], vec![]], vec![0], 0b11111, vec![at.clone(), (Expectation::Eventually, 0b10000)])),
+        // two states violating the same always-property can be evaluated by two workers at the same time, while the
+        // witness of the second property lies deeper
+        // (the third property never gets a discovery, so nothing may stop the check before every state was evaluated)
+        ("twin-violations", g(vec![vec![Some(1), Some(2)], vec![Some(3)], vec![Some(3)], vec![Some(4)], vec![Some(5)], vec![]], vec![0], 0b111111, vec![(Expectation::Always, 0b111001), (Expectation::Sometimes, 0b010000), at.clone()])),
     ]
 }
 
@@ -559,7 +563,7 @@ pub fn run_c05(a: &Args, shared: &SharedReport) {
     {
         let mut r = shared.lock().unwrap();
         r.rule = "every schedule of the real worker threads at their hook points (lock, condition wait, notify_one choice, yield points before shared-map accesses) up to the preemption bound, for each (model, strategy, threads, block size, stop reason) case and each job-market case; each schedule is one execution of the real code; non-trivial = all (>= 2 threads)".into();
-        r.bounds = json!({"preemption_bound": if th {3} else {2}, "checker_cases": "8 zoo graphs x {bfs,dfs,on_demand} x threads x block, + finish_when / target / model panic / dfs+symmetry / simulation cases", "threads": if th {vec![2,3]} else {vec![2]},
+        r.bounds = json!({"preemption_bound": if th {3} else {2}, "checker_cases": "9 zoo graphs x {bfs,dfs,on_demand} x threads x block, + finish_when / target / model panic / dfs+symmetry / simulation cases", "threads": if th {vec![2,3]} else {vec![2]},
             "market_cases": "8 job trees (chains, binary trees, two roots, fans of 4-7) x {normal, early return, panic} x workers; 2 workers: preemption bound 4 (thorough: unbounded), 3 workers: bound 2 (3), 4 workers on the fans: bound 1 (2)", "execution_cap_per_case": if th {60000} else {8000}, "horizon_steps": 5000});
     }
     harness_b(a, shared, th);
